@@ -42,13 +42,13 @@ Definition good_targets (P : path) (w : node) (sp : spec) : Prop :=
     Forall plain (snd e) /\ Forall nosep (snd e) /\ dirs_to w (snd e) /\ is_prefix P (snd e) = false.
 
 Theorem scratch_then_second_run_noop : forall P (sp : spec) hint hint2 w n cwd w' n',
-  P <> [] -> Forall plain P -> Forall real P -> good_spec sp -> no_root sp ->
+  P <> [] -> Forall plain P -> Forall real P -> good_spec sp ->
   (forall e, In e sp -> Forall real (fst e)) -> good_targets P w sp ->
   dirs_to w (removelast P) -> get w P = None ->
   update_view hint (w, n) cwd (A P) (lk_of sp) = ok (w', n') -> nwf w' ->
   update_view hint2 (w', n') cwd (A P) (lk_of sp) = ok (w', n').
 Proof.
-  intros P sp hint hint2 w n cwd w' n' Pne Ppl Pre Hg Hroot Hreal Htg Hd Hn Hrun Hwf.
+  intros P sp hint hint2 w n cwd w' n' Pne Ppl Pre Hg Hreal Htg Hd Hn Hrun Hwf.
   destruct (from_scratch_inv P Pne Ppl sp hint w n cwd Hg Hd Hn) as [w1 [k [L [M [Hk [HL [HLn [I F]]]]]]]].
   rewrite M in Hrun. inversion Hrun; subst w' n'. clear Hrun.
   destruct sp as [|e0 sp0] eqn:Esp.
